@@ -545,7 +545,7 @@ def _ref_shrinks(ref):
     return out
 
 
-def shrink(plan, target, repo, budget=120, known=None, log=None, seconds=90):
+def shrink(plan, target, repo, budget=120, known=None, log=None, seconds=90, wall=None):
     """Minimise a failing plan while the same (prop, check, site) still fires.  Bounded both in
     executions and in wall-clock time (a candidate may be slow when the defect makes the library
     slow)."""
@@ -558,6 +558,10 @@ def shrink(plan, target, repo, budget=120, known=None, log=None, seconds=90):
             spent[0] = budget
             return False
         spent[0] += 1
+        if wall:
+            # per-segment limit for candidates (a candidate that is cut short just does not
+            # count as reproducing); the final plan gets the plan's own limit back
+            cand["wall"] = wall
         return _try(cand, target, repo, known) is not None
 
     # 1. replicas: one replica if the failure is not a replica comparison
@@ -674,6 +678,11 @@ def shrink(plan, target, repo, budget=120, known=None, log=None, seconds=90):
     if log is not None:
         log.append("shrink: %d executions, %d ops left" % (
             spent[0], sum(len(s["ops"]) for s in best["segments"])))
+    if wall:
+        if plan.get("wall") is None:
+            best.pop("wall", None)
+        else:
+            best["wall"] = plan["wall"]
     return best
 
 
